@@ -13,7 +13,8 @@ namespace Fancy.Chars
 /-- non-ASCII characters the tables know about: (char, isWord, simple-case-fold partner) -/
 def known : List (Char × Bool × Option Char) :=
   [('é', true, some 'É'), ('É', true, some 'é'), ('ß', true, none), ('日', true, none),
-   ('€', false, none), ('😀', false, none), ('ü', true, some 'Ü'), ('Ü', true, some 'ü')]
+   ('€', false, none), ('😀', false, none), ('ü', true, some 'Ü'), ('Ü', true, some 'ü'),
+   ('ÿ', true, some 'Ÿ'), ('Ÿ', true, some 'ÿ'), ('¿', false, none), ('अ', true, none), ('ก', true, none)]
 
 def isAscii (c : Char) : Bool := c.val < 128
 
